@@ -972,6 +972,9 @@ fn fam_logfmt(ctx: &mut Ctx, r: &mut Rng, from: bool) {
     let mut lines = vec![];
     for i in 0..n {
         let (text, pairs) = lf_wellformed(r);
+        // text taken from a field may end in blanks or a line break (a JSON string keeps them): the
+        // pairs are those of the same text as a line, where trailing whitespace does not count
+        let text = if from && r.chance(35) { format!("{}{}", text, r.pick(&[" ", "  ", "\n", " \n", "\r\n", " \r\n", "\t"])) } else { text };
         let mut m: std::collections::BTreeMap<String, J> = Default::default();
         if from {
             m.insert("id".into(), J::Int(i as i64));
